@@ -203,6 +203,7 @@ def judge(norm, node):
                     blk.remove(st)
             R().visit(node)
     set_parents(node)
+    stamped_pair(norm, node, info)
     keyed_snapshot(norm, node, info)
     set_parents(node)
     class_level_coverage(norm, node, info)
@@ -216,6 +217,8 @@ def judge(norm, node):
             continue
         kind, X, raw_K = form
         scope = info.scope(X)
+        if scope is None and lazily_created(guard) == X and info.assigned_in.get(X, set()) <= {fi.name}:
+            scope = 'instance'
         if scope is None:
             continue
         in_loop = inside_loop(node, guard)
@@ -362,6 +365,63 @@ def judge(norm, node):
 
 DETERMINED_BY = {'domain': {'attrs', 'shape'}}
 DERIVED = {'graph': {'cliques', 'domain'}}          # JunctionTree.graph = _make_graph() of the cliques and the domain
+
+
+def stamped_pair(norm, node, info):
+    """A value remembered together with the scalar it was computed from:
+
+        if getattr(self, 'X', (None, None))[0] != self.a:  self.X = (self.a, V)
+        ... self.X[1] ...
+
+    `self.X[1]` is V whenever V reads nothing of the object but the stamped scalar self.a (compared by value, so a re-assignment from
+    outside is noticed) and X is bound nowhere else: the test and the store are dropped and the reads become V."""
+    me = norm.fi.name
+    for blk in blocks(node):
+        for g in list(blk):
+            if not (isinstance(g, ast.If) and not g.orelse and len(g.body) == 1 and isinstance(g.test, ast.Compare) and len(g.test.ops) == 1
+                    and isinstance(g.test.ops[0], ast.NotEq)):
+                continue
+            st = g.body[0]
+            if not (isinstance(st, ast.Assign) and len(st.targets) == 1 and self_attr(st.targets[0]) and isinstance(st.value, ast.Tuple) and len(st.value.elts) == 2):
+                continue
+            X = self_attr(st.targets[0])
+            S, V = st.value.elts
+            sides = [g.test.left, g.test.comparators[0]]
+            cur = [e for e in sides if isinstance(e, ast.Subscript) and isinstance(e.slice, ast.Constant) and e.slice.value == 0]
+            oth = [e for e in sides if e not in cur]
+            if len(cur) != 1 or len(oth) != 1 or U(oth[0]) != U(S):
+                continue
+            c = cur[0].value
+            if isinstance(c, ast.Call) and U(c.func) == 'getattr' and len(c.args) == 3 and U(c.args[0]) == 'self' and isinstance(c.args[1], ast.Constant) \
+                    and c.args[1].value == X and isinstance(c.args[2], ast.Tuple) and len(c.args[2].elts) == 2 and U(c.args[2].elts[0]) == 'None':
+                pass
+            elif self_attr(c) == X and info.scope(X) == 'instance':
+                pass
+            else:
+                continue
+            if self_attr(S) not in SCALAR_ATTRS:
+                continue
+            vattrs = {self_attr(n) for n in ast.walk(V)} - {None}
+            vnames = {n.id for n in ast.walk(V) if isinstance(n, ast.Name)} - BUILTINS - {'np', 'numpy', 'math'}
+            binds = [n for n in ast.walk(node) if isinstance(n, (ast.Assign, ast.AugAssign)) and any(self_attr(t) == X for t in
+                     (n.targets if isinstance(n, ast.Assign) else [n.target]))]
+            if not (vattrs <= {self_attr(S)} and not vnames and info.assigned_in.get(X, set()) <= {me} and len(binds) == 1 and X not in info.foreign):
+                continue
+            reads = [n for n in ast.walk(node) if self_attr(n) == X and isinstance(n.ctx, ast.Load) and not any(n is x for x in ast.walk(g))]
+            if not reads or not all(isinstance(getattr(n, '_parent', None), ast.Subscript) and isinstance(n._parent.slice, ast.Constant) and n._parent.slice.value == 1
+                                    for n in reads):
+                continue
+            targets = {id(n._parent) for n in reads}
+
+            class R(ast.NodeTransformer):
+                def visit_Subscript(self, n):
+                    if id(n) in targets:
+                        return ast.copy_location(clone(V), n)
+                    return self.generic_visit(n)
+            blk.remove(g)
+            R().visit(node)
+            ast.fix_missing_locations(node)
+            set_parents(node)
 
 
 def keyed_snapshot(norm, node, info, rewrite=True):
@@ -618,6 +678,19 @@ def guard_form(g):
     if isinstance(t, ast.Compare) and len(t.ops) == 1 and isinstance(t.ops[0], ast.Is) and self_attr(t.left) is not None \
             and isinstance(t.comparators[0], ast.Constant) and t.comparators[0].value is None:
         return 'slot', self_attr(t.left), None
+    X = lazily_created(g)
+    if X is not None:
+        return 'slot', X, None
+    return None
+
+
+def lazily_created(g):
+    """`if not hasattr(self, 'X'):` ending in `self.X = V`: a slot created on first use"""
+    t = g.test
+    if isinstance(t, ast.UnaryOp) and isinstance(t.op, ast.Not) and isinstance(t.operand, ast.Call) and U(t.operand.func) == 'hasattr' \
+            and len(t.operand.args) == 2 and U(t.operand.args[0]) == 'self' and isinstance(t.operand.args[1], ast.Constant) and not g.orelse \
+            and g.body and isinstance(g.body[-1], ast.Assign) and len(g.body[-1].targets) == 1 and self_attr(g.body[-1].targets[0]) == t.operand.args[1].value:
+        return t.operand.args[1].value
     return None
 
 
